@@ -725,6 +725,21 @@ func (e *SpecEnv) call(n SCall) Val {
 	case "ref":
 		v := e.Eval(n.Args[0])
 		return Val{K: KInt, T: e.term(v)}
+	case "fieldowner":
+		// fieldowner(p, "Type", "field"): the object whose struct-typed field `field` is *p
+		v := e.Eval(n.Args[0])
+		ts, ok1 := n.Args[1].(SStrLit)
+		fs, ok2 := n.Args[2].(SStrLit)
+		if !ok1 || !ok2 {
+			e.fail("fieldowner(p, \"Type\", \"field\")")
+		}
+		t := e.lookupType(ts.V)
+		if t == nil {
+			e.fail("unknown type %q", ts.V)
+		}
+		inv := smtName("subinv." + typeKey(t) + "." + fs.V)
+		vc.decls.Fun(inv, []Sort{SInt}, SInt)
+		return Val{K: KPtr, T: App(SInt, inv, e.term(v)), Typ: types.NewPointer(t)}
 	case "allocated":
 		v := e.Eval(n.Args[0])
 		return Val{K: KBool, T: Select(vc.heapGet(e.cur, "G.alloc", ArrSort(SInt, SBool)), e.term(v))}
@@ -776,6 +791,9 @@ func (e *SpecEnv) call(n SCall) Val {
 		ne := *e
 		ne.vars = vars
 		ne.f = nil
+		if pk := vc.eng.pkgByPath(p.PkgPath); pk != nil {
+			ne.pkg = pk
+		}
 		return ne.Eval(p.Body)
 	}
 	if f, ok := vc.eng.prelude.Funs[n.Fn]; ok {
